@@ -91,6 +91,15 @@ func Checks(quick, thorough int) int {
 	return n
 }
 
+// ShrinkTime bounds rapid's shrinking for the tests that follow in this process (rapid checks the limit between two
+// attempts; tests whose single case costs seconds - child processes, bulk data - should keep it short, otherwise a
+// failure found early is only reported after the driver's deadline).
+func ShrinkTime(d time.Duration) {
+	if f := flag.Lookup("rapid.shrinktime"); f != nil {
+		_ = f.Value.Set(d.String())
+	}
+}
+
 // Pick returns quick or thorough according to the tier (for sizes / counts that are not rapid checks).
 func Pick(quick, thorough int) int {
 	if Thorough() {
